@@ -161,13 +161,14 @@ func checkBuffer(res *result, who string, r subRec, c *evCtx, ix *pubIndex) map[
 	}
 	if c.n > 0 && c.nPubs == 1 {
 		// the most recent publication completed before the call began must be in B (or be followed in B).
-		// Tolerated: Buffer=1 and B empty — the flush-mode queue evicts before it links the new item, a
-		// reader in between sees an empty queue; the publication in progress is delivered live and only
-		// history is withheld (counted, not judged).
+		// Buffer=1 and B empty is the torn state of the flush-mode queue (the producer evicts, then links the
+		// new item; a reader in between sees an empty queue although a message is buffered at every instant
+		// of any sequential explanation): same root cause as the nil-value panic, same signature.
 		lc := ix.lastCompletedBefore(0, r.S0)
 		if lc > 0 && lastIn[0] < lc {
 			if c.n == 1 && len(r.B) == 0 {
 				emptyDuringEviction.Add(1)
+				res.violate("subscribe-vs-publish-buffer-race", "%s: Buffer=1, publication %d had completed before the subscribe call began, yet the call returned an empty buffer (queue observed between the producer's eviction and insertion)", who, lc)
 			} else {
 				res.violate("buffer-stale", "%s: Buffer=%d, publication %d had completed before the subscribe call began, returned buffer is %s", who, c.n, lc, seqsOf(r.B))
 			}
